@@ -38,6 +38,7 @@ def parseSessEv (s : String) : Option SessEv :=
   match s.splitOn ":" with
   | ["m", sid, it] => (parseItem it).map (.msg sid)
   | ["r", sid, num] => num.toInt?.map (.req sid)
+  | ["e", sids] => some (.expire (parts "," sids))
   | _ => none
 
 def parseElem (s : String) : Option Elem :=
